@@ -3,7 +3,7 @@ Scenario: one operation with its arguments (byte strings never contain NUL; they
 exact-size heap blocks):
   :strlen a | :strcmp a b | :strncmp a b n | :strstr a b | :memcmp a b n | :contains a b | :containsnc a b | :starts a b | :ends a b
   :count a b | :eq a b | :eqnc a b | :find a ch | :findfrom a start ch | :substr a begin amount | :substr1 a begin | :lower a
-  :replc a c1 c2 | :ordinal n | ... (second group, see GROUP2)
+  :replc a c1 c2 | :ordinal n | ... (second group, see GROUP2) | :atoi a | :atou a
 Observation: <value> <independent reference (std::string/libc) agrees> <every buffer returned once with its size>."""
 import itertools
 from vlib import tz, tb
@@ -17,13 +17,15 @@ RULE = ("per operation: exhaustive over strings of length 0..4 over {a,b} x patt
         "aa, aba, abab, empty pattern, pattern longer than the string), strings over the alphabet {a,b,A,B,.,blank,\\n,\\t,0x01,0x7f,0x80,0xff,digits} "
         "of length 0..12 and 100..5000, every position/amount in -1..len+2 plus SIZE_MAX and 2^63, characters incl. the alphabet, 0 and absent ones, "
         "caller buffers of size 0,1,len,len+1,len+2; non-trivial = at least one argument string is non-empty or a position is out of range")
-ASSUMPTIONS = ["byte strings without embedded NUL (C strings)", "LP64, size_t = 64 bit", "AtoI/AtoU digit strings of at most 9 digits (longer ones overflow int: same contract as atoi)",
+ASSUMPTIONS = ["byte strings without embedded NUL (C strings)", "LP64, size_t = 64 bit", "AtoI/AtoU: the digit string read fits the result type (int / unsigned; every run of at most 9 digits does) -- beyond that AtoI is signed overflow: same contract as atoi",
                "StrNCpy/copyToBuffer/MemCmp are called with buffers at least as large as their contract requires"]
 ALPHA = [0x61, 0x62, 0x41, 0x42, 0x2e, 0x20, 0x0a, 0x09, 0x01, 0x7f, 0x80, 0xff, 0x31, 0x5a, 0x5b, 0x40, 0x7a, 0x0d, 0x07, 0x1f]
 TWO = ["a", "b", "A", "B"]
 GROUP1 = ["strlen", "strcmp", "strncmp", "strstr", "memcmp", "contains", "containsnc", "starts", "ends", "count", "eq", "eqnc", "find",
           "findfrom", "substr", "substr1", "lower", "replc", "ordinal"]
 GROUP2 = ["repls", "printable", "append", "plus", "copybuf", "fmt"]
+GROUP3 = ["atoi", "atou", "bytes"]       # number parsing; "bytes" = the per-byte sweeps of every character predicate
+SEARCH_CAP = 20000                       # search mode (a proof no longer builds): the quick families + this many thorough scenarios
 PAIR_OPS = ["strcmp", "strstr", "contains", "containsnc", "starts", "ends", "count", "eq", "eqnc"]
 
 
@@ -177,8 +179,94 @@ def gen_ops(ops, tier, rng):
     return out
 
 
+
+# ---------------------------------------------------------------- AtoI / AtoU and the character predicates
+BLANKS = [0x20, 0x09, 0x0a, 0x0b, 0x0c, 0x0d]
+NEAR_BLANKS = [0x08, 0x0e, 0x1f, 0x21, 0xa0, 0x89, 0x8d, 0x07]
+NUM_BOUNDARY = [b"", b"-", b"+", b"+-5", b"--5", b"-+5", b"++5", b" \t\n\v\f\r42", b"\x0842", b"\x0e42", b"0042", b"999999999", b"-999999999",
+                b"+999999999", b"12a3", b"/5", b":5", b"0", b"-0", b"+0", b"9", b"10", b"-1", b" -1", b"- 1", b"-\t1", b"1 2", b"1-2", b"1+2", b"5-", b"09", b"90",
+                b"19", b"91", b"0/", b"9:", b"/0", b":9", b"2147483647", b"-2147483647", b"+2147483647", b"0000000000042", b"-0000000000042", b"000000000",
+                b" 2147483647x", b"\x80" b"5", b"\xb05", b"5\xb9", b"\xa05", b" \xa05", b"\x205", b"\x0d\x0a7", b"\x0c\x0b\x0a\x097", b"  \x0e7", b"7 ", b"7\t8"]
+ATOU_ONLY = [b"4294967295", b"4294967294", b"2147483648", b"3000000000", b" \r4294967295/", b"0004294967295"]
+
+
+def _digit_value(a, signed):
+    """value of the digit run the function reads (after blanks and, for AtoI, one sign)"""
+    i = 0
+    while i < len(a) and (a[i] == 0x20 or 9 <= a[i] <= 13):
+        i += 1
+    if signed and i < len(a) and a[i] in (0x2b, 0x2d):
+        i += 1
+    v = 0
+    while i < len(a) and 0x30 <= a[i] <= 0x39:
+        v = v * 10 + a[i] - 0x30
+        i += 1
+    return v
+
+
+def num_ok(op, a):
+    """the digit string fits the result type (valid of the Coq model)"""
+    return _digit_value(a, True) <= 0x7fffffff if op == "atoi" else _digit_value(a, False) < (1 << 32)
+
+
+def gen_numbers(ops, tier, rng):
+    out = []
+    nops = [o for o in ("atoi", "atou") if o in ops]
+
+    def add(op, a):
+        if 0 not in a and num_ok(op, a):
+            out.append(":%s %s" % (op, tb(bytes(a))))
+    if "bytes" in ops:
+        # every char value at every place a predicate looks at it: first character, between digits, after a blank, after a sign
+        for c in range(1, 256):
+            for op in nops:
+                for a in ([c, 0x37], [0x37, c, 0x33], [0x20, c, 0x37], [0x2d, c, 0x35], [0x2b, c, 0x35], [c], [c, c, 0x31], [0x09, c, 0x0d, 0x38, c, 0x39]):
+                    add(op, a)
+            if "lower" in ops:
+                out.append(":lower " + tb(bytes([c])))
+                out.append(":lower " + tb(bytes([0x61, c, 0x5a, c])))
+            d = c ^ 0x20
+            if d:
+                if "eqnc" in ops:
+                    out.append(":eqnc %s %s" % (tb(bytes([c])), tb(bytes([d]))))
+                    out.append(":eqnc %s %s" % (tb(bytes([0x78, c, 0x59])), tb(bytes([0x58, d, 0x79]))))
+                if "containsnc" in ops:
+                    out.append(":containsnc %s %s" % (tb(bytes([0x78, c, 0x79])), tb(bytes([d]))))
+                    out.append(":containsnc %s %s" % (tb(bytes([0x58, d, d, c])), tb(bytes([c, c]))))
+                if "eq" in ops:
+                    out.append(":eq %s %s" % (tb(bytes([c])), tb(bytes([d]))))
+            if "eqnc" in ops:
+                out.append(":eqnc %s %s" % (tb(bytes([c])), tb(bytes([c]))))
+            if "printable" in ops:
+                out.append(":printable " + tb(bytes([0x61, c, 0x20, c])))
+    for op in nops:
+        for a in NUM_BOUNDARY + (ATOU_ONLY if op == "atou" else []):
+            add(op, a)
+            for pre in (b" ", b"\t", b"\r\n", b"x"):
+                add(op, pre + a)
+            add(op, a + b"x")
+            add(op, a + b" 1")
+    nr = 1500 if tier == "quick" else 20000
+    junk = list(range(1, 256))
+    for _ in range(nr):
+        pre = bytes(rng.choice(BLANKS if rng.random() < 0.8 else NEAR_BLANKS) for _ in range(rng.choice([0, 0, 1, 1, 2, 3, 6])))
+        sign = rng.choice([b"", b"", b"", b"-", b"+", b"-", b"--", b"+-", b"- ", b"-+"])
+        nd = rng.choice([0, 1, 1, 2, 3, 5, 8, 9, 9])
+        digs = bytes(rng.choice(b"0123456789") for _ in range(nd))
+        if rng.random() < 0.2:
+            digs = b"0" * rng.randint(1, 6) + digs
+        c = rng.random()
+        post = b"" if c < 0.3 else bytes([rng.choice([0x2f, 0x3a, 0x20, 0x2d, 0x2b, 0x61, 0x2e, 0x09, 0xb5, 0x80, 0xff])]) + rstr(rng, 0, 3, list(b"0123456789 -+a")) if c < 0.7 \
+            else bytes(rng.choice(junk) for _ in range(rng.randint(1, 4)))
+        a = pre + sign + digs + post
+        for op in nops:
+            add(op, a)
+    return out
+
+
 def generate(tier, rng):
-    return gen_ops(set(GROUP1 + GROUP2), tier, rng)
+    ops = set(GROUP1 + GROUP2 + GROUP3)
+    return gen_numbers(ops, tier, rng) + gen_ops(ops, tier, rng)
 
 
 def nontrivial(s):
@@ -212,7 +300,7 @@ def shrink(s):
             b = bytes.fromhex(x[1:])
             cands = [b[:len(b) // 2], b[len(b) // 2:], b[1:], b[:-1]]
             for c in cands:
-                if c != b:
+                if c != b and (t[0] not in (":atoi", ":atou") or num_ok(t[0][1:], c)):
                     yield " ".join(t[:i] + [tb(c)] + t[i + 1:])
 
 
